@@ -478,7 +478,16 @@ func (p *queryPlan) addSpecifiedData(ctx context.Context, r table.Row, cls *sema
 	}
 
 	p.tbl.AddBindings(tbl.Bindings())
-	if tbl.NumRows() == 0 && cls.Optional {
+	// A binding of the row that could not be used to specify the clause (its
+	// value is of a kind that cannot occupy that position) still has to agree
+	// with the value the fetched triple gives to it.
+	var rows []table.Row
+	for _, nr := range tbl.Rows() {
+		if agreeOnSharedBindings(r, nr) {
+			rows = append(rows, nr)
+		}
+	}
+	if len(rows) == 0 && cls.Optional {
 		nr := make(table.Row)
 		for _, k := range tbl.Bindings() {
 			if _, ok := r[k]; !ok {
@@ -488,10 +497,42 @@ func (p *queryPlan) addSpecifiedData(ctx context.Context, r table.Row, cls *sema
 		p.tbl.AddRow(table.MergeRows([]table.Row{r, nr}))
 		return nil
 	}
-	for _, nr := range tbl.Rows() {
+	for _, nr := range rows {
 		p.tbl.AddRow(table.MergeRows([]table.Row{r, nr}))
 	}
 	return nil
+}
+
+// agreeOnSharedBindings returns true if the bindings present in both rows
+// hold the same value.
+func agreeOnSharedBindings(r, nr table.Row) bool {
+	for k, c := range r {
+		if nc, ok := nr[k]; ok && !sameCellValue(c, nc) {
+			return false
+		}
+	}
+	return true
+}
+
+// sameCellValue returns true if both cells hold a value of the same kind and
+// the values are equal. Time anchors are compared as instants.
+func sameCellValue(a, b *table.Cell) bool {
+	if a == nil || b == nil {
+		return a == b
+	}
+	switch {
+	case a.S != nil || b.S != nil:
+		return a.S != nil && b.S != nil && *a.S == *b.S
+	case a.N != nil || b.N != nil:
+		return a.N != nil && b.N != nil && a.N.String() == b.N.String()
+	case a.P != nil || b.P != nil:
+		return a.P != nil && b.P != nil && a.P.UUID().String() == b.P.UUID().String()
+	case a.L != nil || b.L != nil:
+		return a.L != nil && b.L != nil && a.L.Type() == b.L.Type() && a.L.String() == b.L.String()
+	case a.T != nil || b.T != nil:
+		return a.T != nil && b.T != nil && a.T.Equal(*b.T)
+	}
+	return true
 }
 
 // specifyClauseWithTable runs the clause, but it specifies it further based on
